@@ -5,9 +5,10 @@ package main
 // The random generator's collections are (nearly) always homogeneous, so code that looks at the first
 // item to decide how to treat the rest (top, histogram, percentiles, the collection adaptors) was hardly
 // exercised. Here every parameter of collection type of every table function is given, for every
-// ordered pair (A, B) of item kinds, a collection whose first items are of kind A and whose later items
-// are of kind B - once as values, once as keys; and every parameter of function type is given a lambda
-// returning each kind (and one that fails). The cases with the lowest numbers are these, in a fixed
+// (key kind, value kind) of the first items (6 x 6), collections whose later items keep the key kind and
+// take each of the 6 value kinds, and collections whose later items keep the value kind and take each of
+// the 6 key kinds (e.g. id -> id first, then id -> string: the origin-destination histogram); and every
+// parameter of function type is given a lambda returning each kind (and one that fails). The cases with the lowest numbers are these, in a fixed
 // order (the other arguments still come from the case's PRNG); the random cases follow.
 
 import (
@@ -24,7 +25,7 @@ var retKinds = []string{"int", "float", "string", "fid", "pair", "nil", "bool", 
 type sysSpec struct {
 	f     *fn
 	param int
-	a, b  string // item kinds (collection specs)
+	a, b  string // collection specs: key kind and value kind of the FIRST item
 	fnArg bool   // a function-typed parameter: one request per retKind
 }
 
@@ -65,7 +66,9 @@ func (g *Gen) hetElem(kind string, i int) *Node {
 	case "float":
 		return Fl([]float64{1.5, 0.25, 7, -2.5, 1e9, 3}[i%6])
 	case "string":
-		return Str([]string{"a", "b", "5", "#highway", "", "12a"}[i%6])
+		// "5" and "12" are numerical for the histogram's bucketing; depending on the position the first
+		// string of a collection is one of them or not
+		return Str([]string{"a", "5", "b", "12", "#highway", ""}[i%6])
 	case "fid":
 		if len(w.points) > 0 {
 			return FID(pb.FeatureType_FeatureTypePoint, "openstreetmap.org/node", w.points[(i*7)%len(w.points)])
@@ -106,7 +109,7 @@ func (g *Gen) hetCollection(ka, kb, va, vb string) *Node {
 		if i >= j {
 			k, v = kb, vb
 		}
-		ks[i], vs[i] = g.hetElem(k, i), g.hetElem(v, i+1)
+		ks[i], vs[i] = g.hetElem(k, i), g.hetElem(v, i+1+len(ka)%2)
 	}
 	if literalKind(ka) && literalKind(kb) && literalKind(va) && literalKind(vb) && r.Bool() {
 		return Coll(ks, vs)
@@ -177,7 +180,7 @@ func (g *Gen) sysCall(s sysSpec, special *Node, elemKind string) *Node {
 		case sCallable:
 			args = append(args, g.strictCallable(p.arity))
 		case sInt:
-			args = append(args, I(g.R.Intn(6)))
+			args = append(args, I(1+g.R.Intn(5))) // (zero, negative and huge counts are the random part's)
 		case sCollection:
 			// a plain, valid collection of the values the callback / function is most likely to accept
 			args = append(args, Coll([]*Node{I(0), I(1), I(2)}, []*Node{g.hetElem(elemKind, 0), g.hetElem(elemKind, 1), g.hetElem(elemKind, 2)}))
@@ -224,12 +227,18 @@ func sysCase(no int, g func() *Gen) []*request {
 		}
 		return reqs
 	}
-	// values A then B over plain int keys; keys A then B over plain int values
-	gen := g()
-	add(gen, gen.sysCall(s, gen.hetCollection("int", "int", s.a, s.b), "int"), fmt.Sprintf("het:%s/%d:v:%s>%s", s.f.name, s.param, s.a, s.b))
-	gen = g() // a second draw of lengths, switch position and the other arguments
-	add(gen, gen.sysCall(s, gen.hetCollection("int", "int", s.a, s.b), "int"), fmt.Sprintf("het:%s/%d:v:%s>%s", s.f.name, s.param, s.a, s.b))
-	gen = g()
-	add(gen, gen.sysCall(s, gen.hetCollection(s.a, s.b, "int", "int"), "int"), fmt.Sprintf("het:%s/%d:k:%s>%s", s.f.name, s.param, s.a, s.b))
+	// first item (s.a, s.b) = (key kind, value kind); later items keep the key kind and change the value
+	// kind (6 requests), or keep the value kind and change the key kind (6 requests): the cross product
+	// that matters for code choosing a path by looking at the first item only
+	for _, vb := range hetKinds {
+		gen := g()
+		add(gen, gen.sysCall(s, gen.hetCollection(s.a, s.a, s.b, vb), "int"), fmt.Sprintf("het:%s/%d:first=%s,%s", s.f.name, s.param, s.a, s.b))
+		gen.note("het-change:v:" + s.b + ">" + vb)
+	}
+	for _, kb := range hetKinds {
+		gen := g()
+		add(gen, gen.sysCall(s, gen.hetCollection(s.a, kb, s.b, s.b), "int"), fmt.Sprintf("het:%s/%d:first=%s,%s", s.f.name, s.param, s.a, s.b))
+		gen.note("het-change:k:" + s.a + ">" + kb)
+	}
 	return reqs
 }
